@@ -30,11 +30,14 @@ type refModel struct {
 	ents    []*rEnt
 	gone    map[int]bool
 	diff    map[skey]int // predicted minus observed job starts
+	pred    map[skey]int // predicted job starts
 	seen    int          // observed starts consumed
 	npred   int
 }
 
-func newRef() *refModel { return &refModel{gone: map[int]bool{}, diff: map[skey]int{}} }
+func newRef() *refModel {
+	return &refModel{gone: map[int]bool{}, diff: map[skey]int{}, pred: map[skey]int{}}
+}
 
 func (m *refModel) bump(k skey, d int) {
 	m.diff[k] += d
@@ -112,6 +115,7 @@ func (m *refModel) wake(now time.Time) (started, skipped int) {
 			skipped++ // the clock jumped over more than one activation of this entry
 		}
 		m.bump(skey{r.e.h, now.UnixNano()}, 1)
+		m.pred[skey{r.e.h, now.UnixNano()}]++
 		m.npred++
 		started++
 		r.prev = r.next
@@ -264,7 +268,7 @@ func runLockstep(t *testing.T, idx int, mode string, rng *mon.RNG) {
 	desc := fmt.Sprintf("%s phase=%v yield=%d %s", mode, phase, yield, strings.Join(hs, " "))
 	rec.Begin(idx, desc)
 	w := &world{idx: idx, mode: mode, history: hs, yield: yield, yieldRng: mon.NewRNG("c05-yield", idx)}
-	res := bubble(t, func() {
+	res := bubble(t, w, func() {
 		if jump {
 			w.vc = vclock.New(time.Date(2000, 1, 1, 0, 0, 0, 0, time.UTC).Add(phase))
 		} else {
@@ -285,6 +289,10 @@ func runLockstep(t *testing.T, idx int, mode string, rng *mon.RNG) {
 				ls.compareEntries(w.entries(0))
 			}
 			w.checkCtx(true, mode)
+			if jump && w.vc.Pending() > 1 {
+				// looked at, not judged: the statement does not speak about timers
+				rec.Count("jump.observed_more_than_one_armed_timer", 1)
+			}
 			if w.viol {
 				break
 			}
@@ -440,6 +448,8 @@ func (ls *lockstep) compareStarts() {
 			}
 		}
 		switch {
+		case m.pred[k] > 0:
+			class = "second-start-for-one-activation"
 		case !m.running:
 			class = "start-while-stopped"
 		case m.gone[k.h]:
